@@ -17,7 +17,7 @@ def main():
     from replay import adapters
     out = {"target": req["target"]}
     try:
-        out.update(adapters.replay(req["target"], req["inputs"]))
+        out.update(adapters.replay(req["target"], req["inputs"], req.get("ghost")))
     except Exception as e:
         out["adapter_error"] = f"{type(e).__name__}: {e}"
         out["trace"] = traceback.format_exc(limit=5)
